@@ -398,7 +398,7 @@ func zeroSize(r *vkit.Report, workers int) {
 
 func wrap(r *vkit.Report, workers int) {
 	exps := []int{8, 16, 24}
-	if r.Thorough() {
+	if r.Thorough() && !is32() { // 2^32 does not fit a 32-bit int (and the int counter itself wraps there)
 		exps = append(exps, 32)
 	}
 	type wcase struct {
